@@ -10,21 +10,21 @@ too, and every value of `e1` is found in the new environment under the replaceme
 namespace Xdsl.C14
 open Xdsl Xdsl.CSE
 
-variable {V : Type}
+variable {K V : Type} [DecidableEq K]
 
 /-- SSA discipline for the rest of a block: results are defined once and not defined before -/
-def SSA (e : Env V) (prog : List Instr) : Prop :=
+def SSA (e : Env V) (prog : List (Instr K)) : Prop :=
   (prog.map (·.dst)).Nodup ∧ ∀ i ∈ prog, e i.dst = none
 
 /-- invariant between the source run (`eS`) and the run of the rewritten block (`eT`) -/
-structure Inv (sem : String → List V → Option V) (known : Known) (repl : Repl) (eS eT : Env V) : Prop where
+structure Inv (sem : K → List V → Option V) (known : Known K) (repl : Repl) (eS eT : Env V) : Prop where
   agree : ∀ v, eS v = eT (repl.app v)
-  known_ok : ∀ key args d, (((key, args), d) : (String × List Nat) × Nat) ∈ known →
+  known_ok : ∀ key args d, (((key, args), d) : (K × List Nat) × Nat) ∈ known →
     ∃ vs x, getArgs eT args = some vs ∧ sem key vs = some x ∧ eT d = some x
   range : ∀ a b, (a, b) ∈ repl → eT b ≠ none
   dom : ∀ v, eT v ≠ none → eS v ≠ none
 
-theorem find_mem (k : Known) (key : String) (args : List Nat) (d : Nat) (h : k.find key args = some d) :
+theorem find_mem (k : Known K) (key : K) (args : List Nat) (d : Nat) (h : k.find key args = some d) :
     ((key, args), d) ∈ k := by
   induction k with
   | nil => simp [Known.find] at h
@@ -80,8 +80,8 @@ theorem set_self (e : Env V) (k : Nat) (x : V) : (e.set k x) k = some x := by
   simp [Env.set]
 
 /-- main lemma: the walk preserves the invariant and the remaining block runs -/
-theorem cseGo_preserves (sem : String → List V → Option V) (rest : List Instr) :
-    ∀ (known : Known) (repl : Repl) (eS eT : Env V), Inv sem known repl eS eT → SSA eS rest →
+theorem cseGo_preserves (sem : K → List V → Option V) (rest : List (Instr K)) :
+    ∀ (known : Known K) (repl : Repl) (eS eT : Env V), Inv sem known repl eS eT → SSA eS rest →
     ∀ e1, run sem eS rest = some e1 →
     ∃ e2, run sem eT (cseGo known repl rest).1 = some e2 ∧ ∀ v, e1 v = e2 ((cseGo known repl rest).2.app v) := by
   induction rest with
@@ -195,7 +195,7 @@ theorem cseGo_preserves (sem : String → List V → Option V) (rest : List Inst
 so that undefined behaviour of an operation makes the source run undefined), if the block runs from
 `e0` to `e1` then the block after CSE runs from `e0` to some `e2`, and each value `v` of the source
 is the value of `repl v` in the target — uses outside the block are redirected by the same `repl`. -/
-theorem cse_preserves (sem : String → List V → Option V) (prog : List Instr) (e0 : Env V)
+theorem cse_preserves (sem : K → List V → Option V) (prog : List (Instr K)) (e0 : Env V)
     (ssa : SSA e0 prog) (e1 : Env V) (h : run sem e0 prog = some e1) :
     ∃ e2, run sem e0 (cse prog).1 = some e2 ∧ ∀ v, e1 v = e2 ((cse prog).2.app v) := by
   apply cseGo_preserves sem prog [] [] e0 e0 _ ssa e1 h
@@ -204,7 +204,7 @@ theorem cse_preserves (sem : String → List V → Option V) (prog : List Instr)
   · intro a b hab; cases hab
 
 /-- values that are not results of the block (block arguments, values from outside) are untouched -/
-theorem cse_repl_outside (prog : List Instr) (v : Nat) (h : ∀ i ∈ prog, i.dst ≠ v) :
+theorem cse_repl_outside (prog : List (Instr K)) (v : Nat) (h : ∀ i ∈ prog, i.dst ≠ v) :
     ∀ known repl, (cseGo known repl prog).2.app v = repl.app v := by
   induction prog with
   | nil => intro known repl; rfl
@@ -217,8 +217,112 @@ theorem cse_repl_outside (prog : List Instr) (v : Nat) (h : ∀ i ∈ prog, i.ds
     · rw [ih hr, app_cons]; simp [hi]
     · exact ih hr _ _
 
+/-! ## the table of known operations is a hash table: collisions of the hash are harmless as long
+as `OperationInfo.__eq__` compares every component -/
+
+/-- Python's `dict` lookup with `OperationInfo.__hash__`/`__eq__` finds exactly what the
+collision-free table finds — for EVERY hash function `h` (in particular for CPython's, where
+`hash(-1) = hash(-2)` and `hash(v) = hash(v + 2^61 - 1)`) — provided the component comparison
+`eqv` of `__eq__` holds only of equal keys. -/
+theorem findH_eq_find (h : K → List Nat → Int) (eqv : K → K → Bool)
+    (heq : ∀ a b, eqv a b = true ↔ a = b) (k : Known K) (key : K) (args : List Nat) :
+    k.findH h eqv key args = k.find key args := by
+  induction k with
+  | nil => rfl
+  | cons hd tl ih =>
+    obtain ⟨⟨k', a'⟩, d⟩ := hd
+    simp only [Known.findH, Known.find, infoEq, ih]
+    by_cases hc : k' = key ∧ a' = args
+    · obtain ⟨h1, h2⟩ := hc
+      subst h1; subst h2
+      simp [(heq k' k').mpr rfl]
+    · have : ¬ (eqv k' key = true ∧ a' = args) := fun hh => hc ⟨(heq _ _).mp hh.1, hh.2⟩
+      rw [if_neg hc, if_neg]
+      intro hh
+      simp only [Bool.and_eq_true, beq_iff_eq] at hh
+      exact this ⟨hh.2.1.2, hh.2.2⟩
+
+/-- the walk over the hashed table is the walk over the collision-free table -/
+theorem cseGoH_eq_cseGo (h : K → List Nat → Int) (eqv : K → K → Bool)
+    (heq : ∀ a b, eqv a b = true ↔ a = b) (prog : List (Instr K)) :
+    ∀ known repl, cseGoH h eqv known repl prog = cseGo known repl prog := by
+  induction prog with
+  | nil => intro known repl; rfl
+  | cons i rest ih =>
+    intro known repl
+    simp only [cseGoH, cseGo, findH_eq_find h eqv heq]
+    split
+    · exact ih _ _
+    · rw [ih]
+
+/-- **`cse_hashed_preserves`**: `cse_preserves` for the pass as it runs, i.e. with the known
+operations kept in a Python dict keyed by `OperationInfo`: whatever the hash function (collisions
+included), if `__eq__` identifies only operations with equal name / attributes / properties / result
+types, CSE preserves every value of the block. -/
+theorem cse_hashed_preserves (h : K → List Nat → Int) (eqv : K → K → Bool)
+    (heq : ∀ a b, eqv a b = true ↔ a = b)
+    (sem : K → List V → Option V) (prog : List (Instr K)) (e0 : Env V)
+    (ssa : SSA e0 prog) (e1 : Env V) (hrun : run sem e0 prog = some e1) :
+    ∃ e2, run sem e0 (cseH h eqv prog).1 = some e2 ∧ ∀ v, e1 v = e2 ((cseH h eqv prog).2.app v) := by
+  have : cseH h eqv prog = cse prog := cseGoH_eq_cseGo h eqv heq prog [] []
+  rw [this]
+  exact cse_preserves sem prog e0 ssa e1 hrun
+
+/-- the component comparison of the real `OperationInfo.__eq__` (name, attribute dictionary,
+property dictionary, result types — each compared in full) holds only of equal keys -/
+theorem OpKey.eqv_iff (a b : OpKey) : a.eqv b = true ↔ a = b := by
+  obtain ⟨n1, a1, p1, r1⟩ := a
+  obtain ⟨n2, a2, p2, r2⟩ := b
+  simp [OpKey.eqv, and_assoc]
+
+/-- **`cse_opinfo_preserves`**: instance for the structured `OperationInfo` with the real shape of
+`__hash__` (sum of the item hashes, tuple hash `mix`) for arbitrary string / item / tuple hashes. -/
+theorem cse_opinfo_preserves (hs : String → Int) (ha : String × String → Int) (mix : List Int → Int)
+    (sem : OpKey → List V → Option V) (prog : List (Instr OpKey)) (e0 : Env V)
+    (ssa : SSA e0 prog) (e1 : Env V) (hrun : run sem e0 prog = some e1) :
+    ∃ e2, run sem e0 (cseH (OpKey.hash hs ha mix) OpKey.eqv prog).1 = some e2
+      ∧ ∀ v, e1 v = e2 ((cseH (OpKey.hash hs ha mix) OpKey.eqv prog).2.app v) :=
+  cse_hashed_preserves _ _ OpKey.eqv_iff sem prog e0 ssa e1 hrun
+
+/-- `arith.constant <v> : i32` -/
+def constKey (v : String) : OpKey := ⟨"arith.constant", [], [("value", v)], ["i32"]⟩
+
+/-- **`cse_keys_only_counterexample`**: the hypothesis "`__eq__` compares the VALUES" cannot be
+dropped.  If `__eq__` compares only the names of the attributes/properties and leaves the values to
+the hash, then for every hash on which two different values collide (CPython: `hash(-1) = hash(-2)`)
+CSE merges `arith.constant -1` and `arith.constant -2`: the block runs, but the second value is no
+longer what the source computed. -/
+theorem cse_keys_only_counterexample (hs : String → Int) (ha : String × String → Int) (mix : List Int → Int)
+    (hcol : ha ("value", "-1") = ha ("value", "-2")) :
+    let prog : List (Instr OpKey) := [⟨0, constKey "-1", []⟩, ⟨1, constKey "-2", []⟩]
+    let sem : OpKey → List String → Option String := fun k _ => k.props.head?.map (·.2)
+    let out := cseH (OpKey.hash hs ha mix) OpKey.eqvKeysOnly prog
+    SSA (fun _ => none : Env String) prog
+    ∧ (∃ e1, run sem (fun _ => none) prog = some e1 ∧ e1 1 = some "-2")
+    ∧ out.1 = [⟨0, constKey "-1", []⟩]
+    ∧ (∃ e2, run sem (fun _ => none) out.1 = some e2 ∧ e2 (out.2.app 1) = some "-1") := by
+  have hfind : Known.findH (OpKey.hash hs ha mix) OpKey.eqvKeysOnly [((constKey "-1", []), 0)] (constKey "-2") []
+      = some 0 := by
+    simp [Known.findH, infoEq, OpKey.hash, constKey, hcol, OpKey.eqvKeysOnly]
+  have hout : cseH (OpKey.hash hs ha mix) OpKey.eqvKeysOnly
+      [⟨0, constKey "-1", []⟩, ⟨1, constKey "-2", []⟩] = ([⟨0, constKey "-1", []⟩], [(1, 0)]) := by
+    have hnil : ∀ k a, Known.findH (OpKey.hash hs ha mix) OpKey.eqvKeysOnly [] k a = none := fun _ _ => rfl
+    simp only [cseH, cseGoH, List.map_nil, hnil, hfind]
+  refine ⟨⟨by decide, by intro i _; rfl⟩, ?_, ?_, ?_⟩
+  · refine ⟨_, rfl, ?_⟩
+    decide
+  · rw [hout]
+  · rw [hout]
+    refine ⟨_, rfl, ?_⟩
+    decide
+
 /-! ## non-vacuity -/
 example : (cse [⟨2, "addi", [0, 1]⟩, ⟨3, "addi", [0, 1]⟩, ⟨4, "muli", [3, 2]⟩]).1
     = [⟨2, "addi", [0, 1]⟩, ⟨4, "muli", [2, 2]⟩] := by decide
+
+/-- a constant hash (everything collides) changes nothing when `__eq__` is complete -/
+example : (cseH (fun _ _ => 0) (fun (a b : String) => a == b)
+      [⟨2, "c:-1", []⟩, ⟨3, "c:-2", []⟩, ⟨4, "c:-1", []⟩, ⟨5, "addi", [3, 4]⟩]).1
+    = [⟨2, "c:-1", []⟩, ⟨3, "c:-2", []⟩, ⟨5, "addi", [3, 2]⟩] := by decide
 
 end Xdsl.C14
